@@ -106,22 +106,26 @@ def build(tree, scratch, cfg):
     return out
 
 
-def run_shards(binary, scratch, prop, cfg, tcfg, tier, verif_seed, extra_env=None, replay_in=None):
-    nsh = tcfg["shards"]
-    procs = []
+def run_shards(binary, scratch, prop, cfg, tcfgs, tier, verif_seed, extra_env=None, replay_in=None):
+    """tcfgs: list of (part_name, run_regex, tier_cfg). One job per (part, shard)."""
     maxpar = int(os.environ.get("VERIF_PAR", "16"))
-    pending = list(range(nsh))
+    jobs = []
+    for pi, (pname, run, tcfg) in enumerate(tcfgs):
+        for i in range(tcfg["shards"]):
+            jobs.append((pi, pname, run, tcfg, i))
+    pending = list(range(len(jobs)))
     results = {}
     running = {}
-    timeout = tcfg.get("timeout", 900)
     t_start = time.time()
 
-    def launch(i):
-        d = os.path.join(scratch, "run%d" % i)
+    def launch(j):
+        pi, pname, run, tcfg, i = jobs[j]
+        d = os.path.join(scratch, "run-%s-%d" % (pname, i))
         os.makedirs(d, exist_ok=True)
-        seed = shard_seed(verif_seed, prop, i)
+        seed = shard_seed(verif_seed, prop + "/" + pname, i)
         e = {"VERIF_STATS": os.path.join(d, "stats.json"), "VERIF_REPLAY_OUT": os.path.join(d, "replay.json"),
-             "VERIF_TIER": tier, "VERIF_SHARD": str(i), "VERIF_NSHARDS": str(nsh), "VERIF_CASE_SEED": str(seed)}
+             "VERIF_TIER": tier, "VERIF_SHARD": str(i), "VERIF_NSHARDS": str(tcfg["shards"]), "VERIF_CASE_SEED": str(seed),
+             "VERIF_PROP": prop, "VERIF_REGRESS": os.path.join(VERIF, "replays", "regress")}
         if cfg.get("gomaxprocs"):
             e["GOMAXPROCS"] = str(cfg["gomaxprocs"])
         if replay_in:
@@ -130,7 +134,8 @@ def run_shards(binary, scratch, prop, cfg, tcfg, tier, verif_seed, extra_env=Non
             e.update(extra_env)
         for k, v in tcfg.get("env", {}).items():
             e[k] = str(v)
-        cmd = [binary, "-test.run", cfg["run"] if not replay_in else "^TestReplay$", "-test.timeout", "%ds" % (timeout + 60),
+        timeout = tcfg.get("timeout", 900)
+        cmd = [binary, "-test.run", run if not replay_in else "^TestReplay$", "-test.timeout", "%ds" % (timeout + 60),
                "-rapid.checks=%d" % tcfg["checks"], "-rapid.seed=%d" % seed, "-rapid.shrinktime=%s" % tcfg.get("shrinktime", "20s"),
                "-rapid.nofailfile"]
         if tcfg.get("steps"):
@@ -139,14 +144,14 @@ def run_shards(binary, scratch, prop, cfg, tcfg, tier, verif_seed, extra_env=Non
             cmd.append("-test.v")
         outf = open(os.path.join(d, "out.txt"), "w")
         p = subprocess.Popen(cmd, cwd=d, env=env_with(e), stdout=outf, stderr=subprocess.STDOUT, start_new_session=True)
-        running[i] = (p, outf, time.time(), seed, d)
+        running[j] = (p, outf, time.time(), seed, d, timeout)
 
     while pending or running:
         while pending and len(running) < maxpar:
             launch(pending.pop(0))
         time.sleep(0.05)
-        for i in list(running):
-            p, outf, t0, seed, d = running[i]
+        for j in list(running):
+            p, outf, t0, seed, d, timeout = running[j]
             rc = p.poll()
             if rc is None and time.time() - t0 > timeout:
                 try:
@@ -157,8 +162,8 @@ def run_shards(binary, scratch, prop, cfg, tcfg, tier, verif_seed, extra_env=Non
                 rc = "timeout"
             if rc is not None:
                 outf.close()
-                results[i] = {"rc": rc, "seed": seed, "dir": d, "wall": time.time() - t0}
-                del running[i]
+                results[j] = {"rc": rc, "seed": seed, "dir": d, "wall": time.time() - t0, "part": jobs[j][1], "shard": jobs[j][4]}
+                del running[j]
     return results, time.time() - t_start
 
 
@@ -220,11 +225,14 @@ def main():
         sys.exit(2)
     cfg = PROPS[prop]
     tier = a.tier if a.tier in ("quick", "thorough") else "quick"
-    tcfg = dict(cfg[tier])
-    if a.shards:
-        tcfg["shards"] = a.shards
-    if a.checks:
-        tcfg["checks"] = a.checks
+    tcfgs = []
+    for part in cfg["parts"]:
+        tc = dict(part[tier])
+        if a.shards:
+            tc["shards"] = a.shards
+        if a.checks:
+            tc["checks"] = a.checks
+        tcfgs.append((part["name"], part["run"], tc))
     try:
         verif_seed = int(os.environ.get("VERIF_SEED", "1"))
     except ValueError:
@@ -238,8 +246,9 @@ def main():
             code = 2
             return code
         if a.replay:
-            tcfg["shards"] = 1
-            results, wall = run_shards(binary, scratch, prop, cfg, tcfg, tier, verif_seed, replay_in=os.path.abspath(a.replay))
+            tc = dict(tcfgs[0][2])
+            tc["shards"] = 1
+            results, wall = run_shards(binary, scratch, prop, cfg, [("replay", "^TestReplay$", tc)], tier, verif_seed, replay_in=os.path.abspath(a.replay))
             r = results[0]
             out = open(os.path.join(r["dir"], "out.txt")).read()
             print(out[-6000:])
@@ -252,7 +261,7 @@ def main():
             else:
                 code = 2
             return code
-        results, wall = run_shards(binary, scratch, prop, cfg, tcfg, tier, verif_seed)
+        results, wall = run_shards(binary, scratch, prop, cfg, tcfgs, tier, verif_seed)
         counters, nt, samples, capped, notes, nstats = merge_stats(results)
         violations = []
         infra = []
@@ -283,7 +292,7 @@ def main():
             else:
                 new_viol.append((i, rp, v))
         # evidence
-        evals = counters.get("executions", 0) or counters.get("cases", 0) or counters.get("evaluations", 0)
+        evals = counters.get("executions", 0) + counters.get("cases", 0) + counters.get("evaluations", 0)
         ev = {
             "property_id": prop, "tier": tier, "seed": verif_seed, "level": "exploration",
             "coverage": {
@@ -293,7 +302,7 @@ def main():
                 "samples": samples,
                 "exhaustive": False,
                 "counters": counters,
-                "shards": tcfg["shards"], "rapid_checks_per_shard": tcfg["checks"],
+                "parts": [{"name": n, "tests": r, "shards": tc["shards"], "rapid_checks_per_shard": tc["checks"]} for n, r, tc in tcfgs],
                 "shard_seeds": [results[i]["seed"] for i in sorted(results)],
                 "generator_notes": notes[:20],
             },
@@ -320,7 +329,7 @@ def main():
             i, rp, v = new_viol[0]
             dst_dir = os.path.join(VERIF, "replays", prop) if a.src == "/repo" else os.path.join(scratch if a.keep else tempfile.gettempdir(), "verif-replays", prop)
             os.makedirs(dst_dir, exist_ok=True)
-            dst = os.path.join(dst_dir, "%s-seed%d-shard%d.json" % (tier, verif_seed, i))
+            dst = os.path.join(dst_dir, "%s-seed%d-%s-shard%d.json" % (tier, verif_seed, results[i]["part"], results[i]["shard"]))
             shutil.copyfile(rp, dst)
             out = open(os.path.join(results[i]["dir"], "out.txt")).read()
             sys.stdout.write(out[-5000:] + "\n")
